@@ -162,3 +162,73 @@ def blocked(rep, rule, func, ctx, itp):
         rep.undecided(rule, func, 'unknown primitives [%s]' % ctx, '; '.join('%s in %s' % (u[0], u[1]) for u in ub[:6]))
         return True
     return False
+
+
+# ----------------------------------------------------------------------------- admission of the stated domain
+def _eval_test(test, cmps, env):
+    """three-valued value of a guard under a concrete assignment of the size symbols; only comparisons whose operands
+    the interpreter resolved to affine integers are interpreted (anything else is unknown)"""
+    if isinstance(test, ast.BoolOp):
+        vals = [_eval_test(v, cmps, env) for v in test.values]
+        if isinstance(test.op, ast.And):
+            if any(v is False for v in vals):
+                return False
+            return True if all(v is True for v in vals) else None
+        if any(v is True for v in vals):
+            return True
+        return False if all(v is False for v in vals) else None
+    if isinstance(test, ast.UnaryOp) and isinstance(test.op, ast.Not):
+        v = _eval_test(test.operand, cmps, env)
+        return None if v is None else (not v)
+    if isinstance(test, ast.Compare) and id(test) in cmps:
+        res = True
+        for op, la, ra in cmps[id(test)]:
+            l, r = la.subs(env), ra.subs(env)
+            if not (l.is_const() and r.is_const()):
+                return None
+            l, r = l.c, r.c
+            ok = {ast.Lt: l < r, ast.LtE: l <= r, ast.Gt: l > r, ast.GtE: l >= r, ast.Eq: l == r, ast.NotEq: l != r}.get(type(op))
+            if ok is None:
+                return None
+            res = res and ok
+        return res
+    return None
+
+
+def admission(rep, rule, itp, funcs, domain, describe, seen=None):
+    """Every `if <test on sizes>: raise` reached in `funcs` is evaluated on each concrete point of the stated admissible
+    domain (`domain`: list of {symbol: int}); a point on which the guard definitely raises is a witness that an admissible
+    input is rejected.  Guards on data values (unknown under a size assignment) are not judged.  Returns (#guards, #bad)."""
+    n = nbad = 0
+    for e in itp.events:
+        if e[0] != 'guard-raise' or e[4] not in funcs:
+            continue
+        s, arm, cmps = e[1], e[2], e[3]
+        if not cmps:
+            continue
+        block = s.body if arm == 'body' else s.orelse
+        if not block or not isinstance(block[-1], ast.Raise) or \
+                any(isinstance(x, (ast.Return, ast.Break, ast.Continue)) for b in block for x in ast.walk(b)):
+            continue
+        n += 1
+        key = (rule, e[4], normalise(s.test))
+        if seen is not None and key in seen:
+            continue
+        wit = None
+        for env in domain:
+            v = _eval_test(s.test, cmps, {k: Aff(c) for k, c in env.items()})
+            if v is (arm == 'body') and v is not None:
+                wit = env
+                break
+        if seen is not None:
+            seen.add(key)
+        fq = e[4]
+        mod = fq.split('.')[0]
+        if wit is not None:
+            nbad += 1
+            rep.violation(rule, fq, 'if %s: raise' % normalise(s.test)[:80], 'the guard rejects an input of the stated domain: %s '
+                          '(the estimator raises instead of returning the model)' % describe(wit), loc(mod, s))
+        else:
+            rep.proved(rule, fq, 'if %s: raise' % normalise(s.test)[:80], 'false on all %d points of the admissible size grid' % len(domain),
+                       loc(mod, s))
+    return n, nbad
